@@ -262,6 +262,16 @@ func c15Scenarios() []*engine.SScenario {
 		mk("double subscription | publish", []string{"P1"}, nil, func(b *evBus) []func() {
 			return []func(){func() { b.sub("P1"); b.sub("C1"); b.sub("C1") }, func() { b.pub("e1") }}
 		}),
+		// "subscribing twice has no additional effect" also when the two subscriptions of one handler overlap
+		mk("the same application handler subscribed from two goroutines | publish", nil, nil, func(b *evBus) []func() {
+			return []func(){func() { b.sub("P1"); b.pub("e1") }, func() { b.sub("P1") }}
+		}),
+		mk("the same core handler subscribed from two goroutines | publish", []string{"P1"}, nil, func(b *evBus) []func() {
+			return []func(){func() { b.sub("C1"); b.pub("e1") }, func() { b.sub("C1") }}
+		}),
+		mk("subscribe and unsubscribe of one handler from two goroutines | publish", []string{"P1", "P2"}, nil, func(b *evBus) []func() {
+			return []func(){func() { b.sub("P1"); b.pub("e1") }, func() { b.unsub("P1"); b.unsub("P2"); b.pub("e2") }}
+		}),
 	}
 }
 
